@@ -387,6 +387,9 @@ pub fn pools() -> &'static Pools {
         for (i, pol) in VAL_POLICIES.iter().enumerate() {
             seeds.push(SeedDoc { name: format!("cli__genval__gen_policy{i}.cedar"), kind: "policies", bytes: pol.as_bytes().to_vec() });
         }
+        for (i, c) in [r#"{"ips": [{"__extn": {"fn": "ip", "arg": "10.0.0.1"}}], "via": {"__entity": {"type": "Org::Person", "id": "bob"}}}"#, r#"{"if": true}"#, r#"{"ips": []}"#].iter().enumerate() {
+            seeds.push(SeedDoc { name: format!("cli__genval__gen_context{i}.json"), kind: "context_json", bytes: c.as_bytes().to_vec() });
+        }
         seeds.push(SeedDoc { name: "cli__gentags__schema.cedarschema".into(), kind: "schema_cedar", bytes: TAGS_SCHEMA.as_bytes().to_vec() });
         for (i, e) in TAGS_ENTITIES.iter().enumerate() {
             // the first one is the bundle's own store; the others are documents that must be rejected
@@ -642,21 +645,39 @@ pub fn pools() -> &'static Pools {
                         }
                     }
                 }
-                let ctx = text_of("context.json").and_then(|t| Context::from_json_str(&t, None).ok()).unwrap_or_else(Context::empty);
-                'outer: for p in uids.iter().take(4) {
-                    for a in actions.iter().take(4) {
-                        for r in uids.iter().rev().take(3) {
-                            if let Ok(a) = EntityUid::from_str(a) {
-                                if let Ok(rq) = Request::new(p.clone(), a, r.clone(), ctx.clone(), None) {
-                                    requests.push(rq);
+                // requests that conform to the bundle's schema first (the type-aware pipelines need
+                // them), then some that do not
+                let mut ctxs: Vec<Context> = seeds.iter().filter(|sd| bundle_key(&sd.name) == key && sd.kind == "context_json").filter_map(|sd| std::str::from_utf8(&sd.bytes).ok().and_then(|t| Context::from_json_str(t, None).ok())).take(4).collect();
+                ctxs.push(Context::empty());
+                let mut valid = vec![];
+                let mut other = vec![];
+                for a in actions.iter().take(6) {
+                    let Ok(a) = EntityUid::from_str(a) else { continue };
+                    for p in uids.iter().take(6) {
+                        for r in uids.iter().rev().take(6) {
+                            for c in &ctxs {
+                                if let Some(sc) = &schema {
+                                    if let Ok(rq) = Request::new(p.clone(), a.clone(), r.clone(), c.clone(), Some(sc)) {
+                                        if valid.len() < 8 {
+                                            valid.push(rq);
+                                        }
+                                        continue;
+                                    }
                                 }
-                            }
-                            if requests.len() >= 14 {
-                                break 'outer;
+                                if other.len() < 6 {
+                                    if let Ok(rq) = Request::new(p.clone(), a.clone(), r.clone(), c.clone(), None) {
+                                        other.push(rq);
+                                    }
+                                }
                             }
                         }
                     }
                 }
+                let mut first = std::mem::take(&mut requests);
+                first.truncate(1);
+                requests = valid;
+                requests.extend(first);
+                requests.extend(other);
                 Some(Bundle { entities, schema, requests })
             }));
             if let Ok(Some(b)) = built {
@@ -1112,7 +1133,24 @@ impl Pipe<'_> {
             return None;
         }
         self.stages += 1;
-        match std::panic::catch_unwind(std::panic::AssertUnwindSafe(f)) {
+        let trace_file = std::env::var("VERIF_STAGE_TRACE").ok();
+        let trace = trace_file.is_some();
+        let eprintln_to = |line: String| {
+            if let Some(f) = &trace_file {
+                if let Ok(mut fh) = std::fs::OpenOptions::new().create(true).append(true).open(f) {
+                    let _ = writeln!(fh, "{line}");
+                }
+            }
+        };
+        if trace {
+            eprintln_to(format!("stage {} {name} ...", self.stages));
+        }
+        let t0 = std::time::Instant::now();
+        let res = std::panic::catch_unwind(std::panic::AssertUnwindSafe(f));
+        if trace {
+            eprintln_to(format!("stage {} {name} took {:?}", self.stages, t0.elapsed()));
+        }
+        match res {
             Ok(v) => Some(v),
             Err(p) => {
                 let msg = crate::hashseam::panic_message(&p);
@@ -1124,6 +1162,92 @@ impl Pipe<'_> {
                 None
             }
         }
+    }
+    /// the object-level pipelines behind the experimental APIs: partial evaluation with an
+    /// unknown resource, type-aware partial evaluation, batched evaluation, permission queries;
+    /// every residual policy they return is printed and converted
+    fn experimental(&mut self, ps: &PolicySet, schema: &Schema, entities: &Entities, requests: &[Request], tag: &str) {
+        use cedar_policy::{PartialEntities, PartialEntityUid, PartialRequest, PrincipalQueryRequest, ResourceQueryRequest, TestEntityLoader};
+        let show = |pol: &Policy| -> usize {
+            let mut n = pol.to_string().len();
+            n += pol.to_json().map(|j| j.to_string().len()).unwrap_or(0);
+            n += pol.to_pst().map(|x| format!("{x}").len()).unwrap_or(0);
+            n
+        };
+        for r in requests.iter().take(3) {
+            let (Some(pr), Some(ac), Some(rs)) = (r.principal(), r.action(), r.resource()) else { continue };
+            let ctx = r.context().cloned().unwrap_or_else(Context::empty);
+            // classic partial evaluation: the resource is unknown
+            let preq = Request::builder().principal(pr.clone()).action(ac.clone()).unknown_resource_with_type(rs.type_name().clone()).context(ctx.clone()).build();
+            if let Some(presp) = self.stage(&format!("is_authorized_partial{tag}"), || Authorizer::new().is_authorized_partial(&preq, ps, entities)) {
+                self.obs.count("reach.partial_evaluated");
+                self.stage(&format!("partial response accessors{tag}"), || {
+                    let mut n = presp.decision().map(|_| 1).unwrap_or(0) + presp.definitely_errored().count() + presp.unknown_entities().len();
+                    for pol in presp.may_be_determining().chain(presp.must_be_determining()).chain(presp.nontrivial_residuals()).chain(presp.all_residuals()) {
+                        n += show(&pol);
+                    }
+                    n
+                });
+                let val = RestrictedExpression::new_entity_uid(rs.clone());
+                let again = self.stage(&format!("partial reauthorize{tag}"), || presp.reauthorize_with_bindings([("resource", &val)], &Authorizer::new(), entities).map(|x| x.decision()).ok());
+                if matches!(again, Some(Some(Some(_)))) {
+                    self.obs.count("reach.partial_reauthorized_to_decision");
+                }
+                self.stage(&format!("partial concretize{tag}"), || presp.concretize().diagnostics().errors().map(|e| render_diag(e.clone())).sum::<usize>());
+            }
+            // Type-aware partial evaluation takes time exponential in the depth of nested
+            // `if true then ..` (open known finding, reproduced by the designated document
+            // `gen_exptime_if_true_nest_40`); the ordinary seed with 24 of them would cost minutes
+            // per case without showing anything more, so it skips the type-aware stages.
+            if self.case.seed_name == "gen_nested_48_6" {
+                continue;
+            }
+            // type-aware partial evaluation with an unknown resource of the request's type
+            let pents = self.stage(&format!("PartialEntities::from_concrete{tag}"), || PartialEntities::from_concrete(entities.clone(), schema).ok());
+            let treq = self.stage(&format!("PartialRequest::new{tag}"), || PartialRequest::new(PartialEntityUid::from_concrete(pr.clone()), ac.clone(), PartialEntityUid::new(rs.type_name().clone(), None), Some(ctx.clone()), schema).ok());
+            if let (Some(Some(pents)), Some(Some(treq))) = (pents, treq) {
+                self.stage(&format!("tpe{tag}"), || match ps.tpe(&treq, &pents, schema) {
+                    Ok(resp) => {
+                        let mut n = resp.decision().map(|_| 1).unwrap_or(0) + resp.reason().map(|i| i.count()).unwrap_or(0);
+                        n += resp.residual_permits().count() + resp.true_permits().count() + resp.false_permits().count() + resp.error_permits().count();
+                        n += resp.residual_forbids().count() + resp.true_forbids().count() + resp.false_forbids().count() + resp.error_forbids().count();
+                        for pol in resp.residual_policies().chain(resp.policies()).chain(resp.nontrivial_residual_policies()) {
+                            n += show(&pol);
+                        }
+                        n += resp.policy_set().to_string().len();
+                        n += resp.reauthorize(r, entities).map(|x| x.diagnostics().errors().count()).unwrap_or(0);
+                        n
+                    }
+                    Err(e) => render_diag(e),
+                });
+                self.obs.count("reach.tpe_evaluated");
+            }
+            for budget in [0u32, 1, 8] {
+                self.stage(&format!("is_authorized_batched{tag}"), || {
+                    let mut loader = TestEntityLoader::new(entities);
+                    match ps.is_authorized_batched(r, schema, &mut loader, budget) {
+                        Ok(_) => 0,
+                        Err(e) => format!("{e} {e:?}").len(),
+                    }
+                });
+            }
+            self.stage(&format!("query_resource{tag}"), || match ResourceQueryRequest::new(pr.clone(), ac.clone(), rs.type_name().clone(), ctx.clone(), schema) {
+                Ok(q) => match ps.query_resource(&q, entities, schema) {
+                    Ok(it) => it.count(),
+                    Err(e) => format!("{e} {e:?}").len(),
+                },
+                Err(e) => render_diag(e),
+            });
+            self.stage(&format!("query_principal{tag}"), || match PrincipalQueryRequest::new(pr.type_name().clone(), ac.clone(), rs.clone(), ctx.clone(), schema) {
+                Ok(q) => match ps.query_principal(&q, entities, schema) {
+                    Ok(it) => it.count(),
+                    Err(e) => format!("{e} {e:?}").len(),
+                },
+                Err(e) => render_diag(e),
+            });
+        }
+        // not run here: the deprecated `compute_entity_manifest` (neither validation, authorization,
+        // printing nor conversion; it takes exponential time on 48 nested `if`s - see DESIGN.md 10)
     }
     /// render an error every way a user might
     fn render<E: miette::Diagnostic + Send + Sync + 'static>(&mut self, what: &str, e: E, src: &str) {
@@ -1255,9 +1379,13 @@ impl Pipe<'_> {
                 });
             }
         }
+        self.experimental(ps, schema, &p.entities, &p.requests, "");
         // the documents stored next to this one: its own entities, schema and requests
         if let Some(b) = p.bundles.get(&bundle_key(&self.case.seed_name)) {
             self.obs.count("reach.evaluated_against_own_bundle");
+            if let Some(sc) = &b.schema {
+                self.experimental(ps, sc, &b.entities, &b.requests, " (bundle)");
+            }
             for r in &b.requests {
                 if let Some(resp) = self.stage("authorize (bundle)", || Authorizer::new().is_authorized(r, ps, &b.entities)) {
                     self.stage("render auth errors (bundle)", || {
@@ -1715,6 +1843,8 @@ pub fn designated_slow() -> Vec<(String, String, String)> {
         ("gen_exptime_is_in_nest_40".to_string(), "policies_text".to_string(), format!("permit(principal, action, resource) when {{ {}principal{} }};", "(".repeat(d), " is User in resource)".repeat(d))),
         ("gen_exptime_has_chain_nest_40".to_string(), "policies_text".to_string(), format!("permit(principal, action, resource) when {{ {}principal{} }};", "(".repeat(d), " has a.b)".repeat(d))),
         ("gen_else_if_chain_48".to_string(), "policies_text".to_string(), format!("permit(principal, action, resource) when {{ {} true }};", "if context.n > 0 then false else ".repeat(MAX_DEPTH))),
+        // a constant-true guard makes the typechecker put the live branch in both positions; TPE walks both
+        ("gen_exptime_if_true_nest_40".to_string(), "policies_text".to_string(), format!("permit(principal, action, resource) when {{ {} true {} }};", "if true then ".repeat(d), " else false".repeat(d))),
         // the formatter's work (and output) is proportional to the indent width it is asked for
         ("gen_format_huge_indent".to_string(), "ffi_format_raw".to_string(), r#"{"policyText": "permit(principal, action, resource) when { principal.a && [1, 2, 3].contains(1) };", "lineWidth": 1, "indentWidth": 400000000}"#.to_string()),
     ]
